@@ -337,6 +337,17 @@ func cmdPop(fs *flag.FlagSet) {
 			}
 			env = envFor(s, []byte(src))
 			emit("blocks", total, matching, false, env.Run(wt, Q{Kind: "completion", Path: "p1", File: "t.tf", Pos: PosAt([]byte(src), len(pfx))}))
+			// attributes and blocks of one body together (the limit is on the list, not on each kind)
+			s = &schema.BodySchema{Attributes: map[string]*schema.AttributeSchema{}, Blocks: map[string]*schema.BlockSchema{}}
+			for i := 0; i < total; i++ {
+				if i%4 < 2 {
+					s.Attributes[name(i)] = &schema.AttributeSchema{IsOptional: true, Constraint: schema.LiteralType{Type: cty.String}}
+				} else {
+					s.Blocks[name(i)] = &schema.BlockSchema{Body: &schema.BodySchema{}}
+				}
+			}
+			env = envFor(s, []byte(src))
+			emit("mixed", total, matching, false, env.Run(wt, Q{Kind: "completion", Path: "p1", File: "t.tf", Pos: PosAt([]byte(src), len(pfx))}))
 			// label values
 			blk := &schema.BlockSchema{Labels: []*schema.LabelSchema{{Name: "t", IsDepKey: true, Completable: true}}, Body: &schema.BodySchema{}, DependentBody: map[schema.SchemaKey]*schema.BodySchema{}}
 			for i := 0; i < total; i++ {
